@@ -384,6 +384,12 @@ pub trait RdataIterable {
         Self: DNSIterable + TypedIterable,
     {
         BigEndian::write_u32(&mut self.rdata_slice_mut()[DNS_RR_TTL_OFFSET..], ttl);
+        if self.rr_type() == Type::OPT.into() && self.parsed_packet().offset_edns.is_some() {
+            let parsed_packet = self.parsed_packet_mut();
+            parsed_packet.ext_rcode = Some((ttl >> 24) as u8);
+            parsed_packet.edns_version = Some((ttl >> 16) as u8);
+            parsed_packet.ext_flags = Some(ttl as u16);
+        }
     }
 
     /// Returns the record length for the current RR.
